@@ -233,6 +233,43 @@ fn own_units(tier: Tier) -> Vec<Unit> {
             crate::hv::panics::eval_log_args(false);
         },
     ));
+    // ---- peripheral registers: every ordered pair of TCR values with time elapsing after each write
+    units.push(Unit::new(
+        "timer-writes",
+        256,
+        "8-bit timer: every ordered pair (TCR1, TCR2) of all 256 x 256 control values written through Bus::write, elapse(1|9|255) after each, from reset and from a running /8 clock, TCORA/TCORB/TCNT at {00, ff}: no write and no elapsed time may unwind",
+        move |ctx, chunk| {
+            use super::timer::{TAct, TimerSys};
+            let t1 = chunk as u8;
+            for t2 in 0..=255u8 {
+                for pre in [None, Some(0x01u8)] {
+                    for corners in [0x00u8, 0xff] {
+                        let mut sys = TimerSys::new();
+                        let mut path: Vec<TAct> = vec![TAct::Tcora(corners), TAct::Tcorb(!corners), TAct::Tcnt(corners)];
+                        if let Some(p) = pre {
+                            path.push(TAct::Tcr(p));
+                            path.push(TAct::Elapse(9));
+                        }
+                        path.extend([TAct::Tcr(t1), TAct::Elapse(1), TAct::Elapse(255), TAct::Tcr(t2), TAct::Elapse(9), TAct::Elapse(255)]);
+                        for a in path.iter() {
+                            ctx.st.cases += 1;
+                            ctx.st.nontrivial += 1;
+                            if let Err(m) = sys.apply(a) {
+                                if m.contains("panicked") {
+                                    let p: Vec<String> = path.iter().map(|x| x.text()).collect();
+                                    ctx.custom_violation("c17", m, json!({"path": p}), json!(null), json!(null));
+                                }
+                                break; // semantic disagreements are C17's business, not this property's
+                            }
+                        }
+                        if ctx.stop {
+                            return;
+                        }
+                    }
+                }
+            }
+        },
+    ));
     // ---- MES system calls with adversarial arguments
     units.push(Unit::new(
         "syscalls",
